@@ -105,6 +105,26 @@ func run(r *core.Run) {
 			do(kase{Kind: "json", Doc: d, Backend: be})
 		}
 	}
+	if r.Quick() {
+		// length 4 in the quick tier: every string whose first character is
+		// white space (block-scalar and indentation hazards sit at the start),
+		// default back end, scalar and nested positions
+		r.Section(fmt.Sprintf("strings of length 4 starting with white space over %d chars, backend=goccy", len(alpha)))
+		for _, first := range []string{"\n", " ", "\t"} {
+			gen.Tuples(3, len(alpha), func(ix []int) bool {
+				s := first
+				for _, i := range ix {
+					s += alpha[i]
+				}
+				for _, p := range []string{"value", "nested"} {
+					if !do(kase{Kind: "str", S: s, Pos: p, Backend: "goccy"}) {
+						return false
+					}
+				}
+				return true
+			})
+		}
+	}
 	for l := 1; l <= L; l++ {
 		for _, be := range []string{"goccy", "yamlv3"} {
 			if be == "yamlv3" && l == L && r.Quick() {
